@@ -22,12 +22,18 @@ import (
 type boxHandler struct {
 	mu  sync.Mutex
 	log []string // "<topic>/<source>/<id>" in hand-over order
+	// onMsg: called for every hand-over, outside the handler's own lock (a dispatcher that takes its time)
+	onMsg func(id string)
 }
 
 func (h *boxHandler) HandleMessage(m *tss.IncMessage) {
 	h.mu.Lock()
 	h.log = append(h.log, fmt.Sprintf("%s/%d/%s", string(m.Topic[:1]), m.Source, string(m.Data)))
+	f := h.onMsg
 	h.mu.Unlock()
+	if f != nil {
+		f(string(m.Data))
+	}
 }
 
 func newBox(h *boxHandler) *msg.Box {
@@ -379,8 +385,74 @@ func unitC14ctl(e common.Env, p *common.Part) {
 
 // ---- arm 2: stress ----
 
+// c14slowDispatcher: the hand-over inside the local party's first Send takes long - the dispatcher advances the epoch clock by more
+// than the expiry while it is handed the buffered messages. The topic has just started (the local party has just sent on it): what
+// arrives next is forwarded at once, whatever collection passes other Sends trigger in between; there is no later Send on the
+// topic that could flush it. Sequential, hand-driven clock.
+func c14slowDispatcher(e common.Env, p *common.Part) {
+	for _, ratio := range []int{2, 3, 6} {
+		for _, during := range []int{0, 1, ratio, ratio + 1, ratio + 2, 3 * ratio} {
+			for _, buffered := range []int{1, 3} {
+				key := fmt.Sprintf("slow dispatcher: expiry %d epochs, %d buffered, %d epochs pass during the hand-over of the first", ratio, buffered, during)
+				p.Begin(key)
+				h := &boxHandler{}
+				b := newTickBox(h, ratio)
+				tickc, _ := boxTicks.Load(b)
+				tick := func() {
+					select {
+					case tickc.(chan time.Time) <- time.Time{}:
+						time.Sleep(150 * time.Microsecond)
+					case <-time.After(2 * time.Second):
+					}
+				}
+				var once sync.Once
+				h.onMsg = func(id string) {
+					if id == "m0" {
+						once.Do(func() {
+							for k := 0; k < during; k++ {
+								tick()
+							}
+						})
+					}
+				}
+				msg.SetVerifHook(func(string) {})
+				mkOp(b, "s:Z")() // starts the clock
+				tick()
+				want := []string{}
+				for k := 0; k < buffered; k++ {
+					mkOp(b, fmt.Sprintf("r:T:7:m%d", k))()
+					want = append(want, fmt.Sprintf("T/7/m%d", k))
+				}
+				mkOp(b, "s:T")() // first Send: the buffered messages are handed over, the clock runs meanwhile
+				mkOp(b, "s:U")() // other Sends: collection passes
+				mkOp(b, "r:T:7:late1")()
+				mkOp(b, "s:V")()
+				mkOp(b, "r:T:8:late2")()
+				want = append(want, "T/7/late1", "T/8/late2")
+				time.Sleep(300 * time.Microsecond)
+				b.Stop()
+				boxTicks.Delete(b)
+				h.mu.Lock()
+				got := append([]string{}, h.log...)
+				h.mu.Unlock()
+				p.Case(key, during > 0)
+				p.Count("slow_dispatcher_histories", 1)
+				if fmt.Sprint(got) != fmt.Sprint(want) {
+					p.Violate("lost/after-a-slow-first-hand-over", fmt.Sprintf("%s: the dispatcher was handed %v; the topic had just started, so everything that arrived afterwards is due at once: %v", key, got, want), map[string]interface{}{"ratio": ratio, "during": during, "buffered": buffered})
+					return
+				}
+			}
+		}
+	}
+}
+
 func unitC14stress(e common.Env, p *common.Part) {
-	p.Rule = "real msg.Box, real goroutines (one per sender, one or two local senders), no hook installed, many short histories; distinct key = history hash; non-trivial when the history has >=1 receive concurrent with a Send on the same topic"
+	if e.Mine(0) {
+		ctlMu.Lock()
+		c14slowDispatcher(e, p)
+		ctlMu.Unlock()
+	}
+	p.Rule = "real msg.Box, real goroutines (one per sender, one or two local senders), no hook installed, many short histories; plus sequential histories on a hand-driven epoch clock in which the dispatcher lets 0..3x the expiry pass while it is handed the first buffered message of a first Send, followed by Sends on other topics (collection passes) and two late arrivals on the topic, which are due at once; distinct key = history hash; non-trivial when the history has >=1 receive concurrent with a Send on the same topic"
 	msg.SetVerifHook(func(string) {})
 	n := e.Pick(3000, 60000)
 	var wgAll sync.WaitGroup
